@@ -431,15 +431,15 @@ def e_si(c):
 
 
 PARTS = [
-    Part("db", e_db, s_db(), quick=600, thorough=4000, shards=4, rule="non-trivial: >=2 elements or |log10 x|>3"),
-    Part("q_gaus", e_q, s_q(), quick=300, thorough=2000, shards=4, rule="non-trivial: >=3 evaluation points"),
-    Part("rcos", e_rcos, s_rcos(), quick=800, thorough=5000, shards=4, rule="non-trivial: a point inside the roll-off band and >2 points"),
+    Part("db", e_db, s_db(), quick=600, thorough=16000, shards=4, rule="non-trivial: >=2 elements or |log10 x|>3"),
+    Part("q_gaus", e_q, s_q(), quick=300, thorough=8000, shards=4, rule="non-trivial: >=3 evaluation points"),
+    Part("rcos", e_rcos, s_rcos(), quick=800, thorough=20000, shards=4, rule="non-trivial: a point inside the roll-off band and >2 points"),
     Part("dec2bin", e_dec2bin, kind="enum", enum=enum_dec2bin, shards=1, exhaustive=True,
          rule="exhaustive: every (v,d), d<=16, 0<=v<2^d, plus too-large v; one case per d covers 2^d values"),
-    Part("str2array", e_s2a, s_s2a(), quick=1500, thorough=8000, shards=8, rule="non-trivial: 2-D, complex or explicit dtype"),
-    Part("str2array_bad", e_s2a_bad, s_s2a_bad(), quick=600, thorough=3000, shards=4, rule="valid rendering + one character outside the grammar"),
-    Part("str2array_fuzz", e_s2a_fuzz, s_fuzz, quick=1500, thorough=20000, shards=8, rule="arbitrary text over the grammar alphabet; validity predicate"),
+    Part("str2array", e_s2a, s_s2a(), quick=1500, thorough=32000, shards=8, rule="non-trivial: 2-D, complex or explicit dtype"),
+    Part("str2array_bad", e_s2a_bad, s_s2a_bad(), quick=600, thorough=12000, shards=4, rule="valid rendering + one character outside the grammar"),
+    Part("str2array_fuzz", e_s2a_fuzz, s_fuzz, quick=1500, thorough=80000, shards=8, rule="arbitrary text over the grammar alphabet; validity predicate"),
     Part("str2array_atheris", eval_text("str2array"), kind="custom", custom=lambda ctx, n: run_campaign(ctx, "str2array", n), quick=0, thorough=150000, shards=4,
          rule="coverage-guided (atheris/libFuzzer) campaigns over bytes decoded onto the grammar alphabet, empty corpus and seeded corpus; oracle inside the target; thorough tier only"),
-    Part("si", e_si, s_si(), quick=1500, thorough=8000, shards=4, rule="non-trivial: decade boundary/nextafter/int input or k!=1"),
+    Part("si", e_si, s_si(), quick=1500, thorough=32000, shards=4, rule="non-trivial: decade boundary/nextafter/int input or k!=1"),
 ]
